@@ -110,6 +110,11 @@ func (n *RaftNode) Add(event []byte) (*balloon.Snapshot, error) {
 // As a result, it returns a bulk of shapshots, but previously it sends each snapshot
 // of the bulk to the agents channel, in order to be published/queried.
 func (n *RaftNode) AddBulk(bulk [][]byte) ([]*balloon.Snapshot, error) {
+	// an empty bulk must never be replicated: no replica can apply it
+	if len(bulk) == 0 {
+		return nil, fmt.Errorf("empty bulk: nothing to add")
+	}
+
 	// Hash events
 	var eventHashBulk []hashing.Digest
 	for _, event := range bulk {
